@@ -608,6 +608,107 @@ def extract_rule(P, chk):
                 "self.match_expr.extract(current, entity).map(update)")
 
 
+def _list_loop(b):
+    """(blocks, next bb) of the single loop that walks self.0 front to back without skipping anything; None otherwise"""
+    found = []
+    for h, blks in b.loops().items():
+        for x in blks:
+            t = b.term(x)
+            if t["k"] == "call" and callee_def(t) == "std::iter::Iterator::next":
+                cs = q.chains(b, t["args"][0])
+                chain = [short(n) for cn, r in cs for n in cn]
+                if cs and all(is_p(r, "self", ("0",)) for cn, r in cs) and \
+                        not set(chain) & {"rev", "skip", "take", "filter", "step_by", "filter_map", "skip_while", "take_while", "peekable"}:
+                    found.append((blks, x))
+    return found[0] if len(found) == 1 else None
+
+
+def _or_loop(chk, o, lo):
+    """for e in &self.0 { if let Some(x) = e.extract(..) { return Some(x) } } None"""
+    blks, nx = lo
+    exs = [(bb, t) for bb, t in o.calls() if short(callee_def(t)) == "extract" and bb in blks]
+    ok = len(exs) == 1 and q.all_roots(o, exs[0][1]["args"][0], lambda r: r.kind == "call" and r.site == nx)
+    detail = "the loop does not try element.extract(..) exactly once per element"
+    if ok:
+        ebb = exs[0][0]
+        somes = nones = 0
+        for bb, v, rv in q.ok_err_assignments(o):
+            if v == "Some":
+                somes += 1
+                hit = q.all_roots(o, rv["fields"][0]["op"], lambda r: r.kind == "call" and r.site == ebb)
+                g = any(labs == ("Some",) and any(r.kind == "call" and r.site == ebb for r in roots) for roots, labs in q.variant_guards(o, bb))
+                if not (hit and g):
+                    ok = False
+                    detail = "a Some result is not the first element's successful extraction"
+            elif v == "None":
+                nones += 1
+                g = any(labs == ("None",) and any(r.kind == "call" and r.site == nx for r in roots) for roots, labs in q.variant_guards(o, bb))
+                if not g:
+                    ok = False
+                    detail = "None is returned before every element was tried"
+            else:
+                ok = False
+                detail = "result written by %s" % v
+        ok = ok and somes >= 1 and nones >= 1
+        # a failed extraction goes on to the next element
+        for roots, tb in [(r_, t_) for (sb, t_, kind, r_, labs) in q.switch_edges(o) if kind == "variant" and tuple(labs) == ("None",)
+                          and any(r.kind == "call" and r.site == ebb for r in r_)]:
+            if nx not in o.reach_from(tb):
+                ok = False
+                detail = "a failed extraction does not go on to the next element"
+    chk.require(ok, R_LIST, "MatchOrExpr::extract|matches if any element matches (first match)", o.loc(), detail,
+                "for e in &self.0 { if let Some(x) = e.extract(..) { return Some(x) } } None")
+    chk.require(ok, R_LIST, "MatchOrExpr::extract|over all elements in order", o.loc(nx), detail, "self.0 front to back")
+
+
+def _and_loop(chk, a, la):
+    """let mut f = current; for m in &self.0 { let x = m.captures(&f, entity)?; f = f + x; } Some(f)"""
+    blks, nx = la
+    caps = [(bb, t) for bb, t in a.calls() if short(callee_def(t)) == "captures" and bb in blks]
+    adds = [(bb, t) for bb, t in a.calls() if callee_def(t) == "std::ops::Add::add" and bb in blks]
+    ok = len(caps) == 1 and len(adds) == 1
+    detail = "the loop does not call captures once and add its result once per element"
+    if ok:
+        cbb, ct = caps[0]
+        abb, at = adds[0]
+
+        def is_frag(r):
+            return is_p(r, "current") or (r.kind == "call" and r.site == abb)
+        ok = q.all_roots(a, ct["args"][0], lambda r: r.kind == "call" and r.site == nx) and \
+            q.all_roots(a, ct["args"][1], is_frag) and q.all_roots(a, at["args"][0], is_frag) and \
+            q.all_roots(a, at["args"][1], lambda r: r.kind == "call" and r.site == cbb)
+        detail = "fold step is not fragment = fragment + matcher.captures(&fragment, entity)?"
+        somes = 0
+        for bb, v, rv in q.ok_err_assignments(a):
+            if v == "Some":
+                somes += 1
+                g = any(labs == ("None",) and any(r.kind == "call" and r.site == nx for r in roots) for roots, labs in q.variant_guards(a, bb))
+                if not (g and q.all_roots(a, rv["fields"][0]["op"], is_frag)):
+                    ok = False
+                    detail = "Some is returned before every matcher was applied, or not with the accumulated fragment"
+            elif v == "None":
+                g = any(labs == ("None",) and any(r.kind == "call" and r.site == cbb for r in roots) for roots, labs in q.variant_guards(a, bb))
+                ok = ok and g
+            elif v.startswith("call:") and v.endswith("from_residual"):
+                pass
+            else:
+                ok = False
+                detail = "result written by %s" % v
+        ok = ok and somes >= 1
+        # a matcher that does not match ends the function: from the None outcome of captures the add is unreachable
+        for (sb, tb, kind, roots, labs) in q.switch_edges(a):
+            if kind == "variant" and set(labs) & {"None", "Break"} and any(
+                    r.kind == "call" and (r.site == cbb or (r.site is not None and short(r.name) == "branch" and
+                                                             q.all_roots(a, a.term(r.site)["args"][0], lambda x: x.kind == "call" and x.site == cbb)))
+                    for r in roots):
+                if abb in a.reach_from(tb) or nx in a.reach_from(tb):
+                    ok = False
+                    detail = "a non-matching field does not end the fold"
+    chk.require(ok, R_LIST, "MatchAndExpr::extract|matches only if every field matches", a.loc(), detail, "every matcher must capture")
+    chk.require(ok, R_LIST, "MatchAndExpr::extract|threads the fragment through all matchers", a.loc(nx), detail, "fragment threaded through self.0 in order")
+    chk.require(ok, R_LIST, "MatchAndExpr::extract|a non-matching field ends the fold with None", a.loc(nx), detail, "captures(..)? ends with None")
+
+
 def list_semantics(P, chk):
     o = P.body(OREX)
     a = P.body(ANDEX)
@@ -616,13 +717,20 @@ def list_semantics(P, chk):
     ALL = {"try_fold", "all"}
     rs = prov(o, {"l": 0, "p": []})
     names = set(short(r.name) for r in rs if r.kind == "call")
-    ok = bool(rs) and names <= ANY | {"next"} and bool(names)
-    if "next" in names:
+    lo = _list_loop(o)
+    if lo is not None and not (names & ANY):
+        _or_loop(chk, o, lo)
+        names = None
+    ok = names is None or (bool(rs) and names <= ANY | {"next"} and bool(names))
+    if names is None:
+        pass
+    elif "next" in names:
         chain = [short(n) for cn, r in q.chains(o, {"l": 0, "p": []}) for n in cn]
         ok = ok and "filter_map" in chain and not set(chain) & {"rev", "last", "skip"}
-    chk.require(ok, R_LIST, "MatchOrExpr::extract|matches if any element matches (first match)", o.loc(),
-                "OR-list is consumed by %s" % sorted(names), "find_map")
-    if ok:
+    if names is not None:
+        chk.require(ok, R_LIST, "MatchOrExpr::extract|matches if any element matches (first match)", o.loc(),
+                    "OR-list is consumed by %s" % sorted(names), "find_map")
+    if ok and names is not None:
         for r in rs:
             if r.site is not None:
                 chain = [short(n) for cn, x in q.chains(o, o.term(r.site)["args"][0]) for n in cn]
@@ -631,6 +739,10 @@ def list_semantics(P, chk):
                 chk.require(okc, R_LIST, "MatchOrExpr::extract|over all elements in order", o.loc(r.site), "through %s" % chain, "self.0.iter()")
     rs = prov(a, {"l": 0, "p": []})
     names = set(short(r.name) for r in rs if r.kind == "call")
+    la = _list_loop(a)
+    if la is not None and not (names & ALL):
+        _and_loop(chk, a, la)
+        return
     ok = bool(rs) and names <= ALL and bool(names)
     chk.require(ok, R_LIST, "MatchAndExpr::extract|matches only if every field matches", a.loc(),
                 "AND-list is consumed by %s" % sorted(names), "try_fold")
